@@ -929,6 +929,62 @@ func (g *G) dropOffenders(b *block.Block, hashes []string) {
 	g.Tr.Event("sim removed %d offending transactions from the pool", len(ents))
 }
 
+// ---- a peer whose clock runs ahead -------------------------------------------------------------------
+
+// opAhead lets the round be won by a peer generator whose clock runs ahead of
+// everybody else's by skew seconds: its (empty) block is stamped now+skew. The
+// bubble clock only moves forward, so the peer's block is not produced by the
+// generator under test but by the ledger world's block assembler (real state
+// objects, real hash and signature); both nodes adopt it as the notarized block
+// of the round through the shipped AddNotarizedBlock (the verifier computes its
+// state from the wire copy). The NEXT block is then built by the real generator
+// whose own clock is behind its previous block's creation date.
+func (g *G) opAhead(st sim.Step) {
+	w := g.W
+	tol := g.tolerance()
+	skews := []int64{2, 5, tol / 2, tol - 1, tol + 1, tol + 50}
+	skew := skews[int(st.Int(0, 0))%len(skews)]
+	mi := st.A % len(w.Miners)
+	rn := g.head.Round + 1
+	gmc := g.become(w.C, mi)
+	mr := g.roundOn(gmc, rn)
+	gmc.SetCurrentRound(rn)
+	bc := w.NewBlock(g.head, mi)
+	bc.B.CreationDate = w.Now + common.Timestamp(skew)
+	if bc.B.CreationDate < g.head.CreationDate {
+		bc.B.CreationDate = g.head.CreationDate
+	}
+	bc.B.SetRoundRandomSeed(g.seedOf(rn))
+	b := bc.Finish()
+	nb, err := wireBlock(b, false)
+	if err != nil {
+		g.Tr.Event("ahead block does not decode: %v", err)
+		return
+	}
+	gmc.AddNotarizedBlock(mr, b)
+	g.quiesce()
+	vmc := g.become(g.Ver.C, (mi+1)%len(w.Miners))
+	vr := g.roundOn(vmc, rn)
+	vmc.SetCurrentRound(rn)
+	nb.SetPreviousBlock(g.vhead)
+	if !vmc.AddNotarizedBlock(vr, nb) {
+		g.Tr.Event("round %d: the verifier cannot compute the peer's block", rn)
+		return
+	}
+	g.quiesce()
+	if cp, err := wireBlock(b, false); err == nil {
+		if rb, res := g.execClean(cp); res.Err == "" {
+			g.Rec.Blocks[b.Hash] = rb
+			g.Rec.C.AddBlock(rb)
+		}
+	}
+	g.chain = append(g.chain, &genBlock{B: b, V: nb})
+	g.head, g.vhead = b, nb
+	w.Head = b
+	g.Tr.Fault("previous_block_dated_ahead_of_generator_clock")
+	g.Tr.Event("round %d: peer %d (clock +%d s) wins the round with an empty block dated %d (now %d)", rn, mi, skew, b.CreationDate, w.Now)
+}
+
 // ---- finalisation ----------------------------------------------------------------------------------
 
 // opFin finalises adopted blocks up to head-lag on both nodes: state changes
